@@ -92,16 +92,27 @@ def run(ctx):
         return r if r is not None else f
     hosts = {}                       # private helper name -> {host root name}
     units, covered = [], set()
+    # sources whose own top-level function is a reviewed row (a constructor such as LastBlockInfo::new) stay that function's
+    def _raw_key(f_, c_):
+        return "%s|%s" % (_re.sub(r"(::\{closure#\d+\})+$", "", f_.name), (c_.target_path or "").split("::")[-2] + "::" + (c_.target_path or "").split("::")[-1])
+    own = {(f_.id, c_.bb) for (f_, c_) in srcs if _raw_key(f_, c_) in nd_tbl}
+    for (f_, c_) in srcs:
+        if (f_.id, c_.bb) in own:
+            units.append((_re.sub(r"(::\{closure#\d+\})+$", "", f_.name), f_, c_, (f_.id, c_.bb)))
+    covered |= own
     for f in F.body_fns():
         rt = root_of(f)
         if is_private_helper(rt):
             continue
-        v = F.inlined(f, light=False)
+        # methods of small record types are read in their callers too (`info.record_executed_tx(..)` is the caller's update)
+        v = F.inlined(f, light=True)
         for nm in v.j.get("inlined", []):
             hosts.setdefault(nm, set()).add(_re.sub(r"(::\{closure#\d+\})+$", "", f.name))
         for c in v.calls():
             if not v.is_cleanup(c.bb) and ndet.SRC_RE.search(c.target_path or ""):
                 pv = v.prov(c.bb)
+                if pv in own:
+                    continue
                 covered.add(pv)
                 units.append((_re.sub(r"(::\{closure#\d+\})+$", "", f.name), v, c, pv))
     for (f, c) in srcs:
@@ -111,6 +122,15 @@ def run(ctx):
         hs = sorted(hosts.get(rt.name, ())) if is_private_helper(rt) else []
         for h in (hs or [_re.sub(r"(::\{closure#\d+\})+$", "", f.name)]):
             units.append((h, f, c, (f.id, c.bb)))
+    # a source that is seen inside some *other* function's view (its method was read in place there) belongs to those callers;
+    # the unit of the method itself is dropped
+    foreign = {}
+    for (root_name, f, c, pv) in units:
+        own_root = _re.sub(r"(::\{closure#\d+\})+$", "", (F.fns.get(pv[0]).name if F.fns.get(pv[0]) is not None else ""))
+        if root_name != own_root:
+            foreign.setdefault(pv, set()).add(root_name)
+    units = [(rn, f, c, pv) for (rn, f, c, pv) in units
+             if not (pv in foreign and pv not in own and rn == _re.sub(r"(::\{closure#\d+\})+$", "", (F.fns.get(pv[0]).name if F.fns.get(pv[0]) is not None else "")))]
     counted = set()
     for (root_name, f, c, pv) in units:
         key = "%s|%s" % (root_name, (c.target_path or "").split("::")[-2] + "::" + (c.target_path or "").split("::")[-1])
